@@ -1,8 +1,8 @@
 (* C09 (xfab.laue) - returned (omega, eta) satisfy the diffraction condition; none is missed.
    [diffracts Om g tth eta]: Om.g = (-sin^2(theta), -sin(2theta) sin(eta)/2, sin(2theta) cos(eta)/2) (lib/OmegaSolve.v).
-   find_omega_wedge is decided numerically on the implementation only (no theorem). *)
+   find_omega_wedge: rotation matrix Ry(-wedge).Rz(omega) (GrainSpotter sign), see the wedge theorems below. *)
 From Coq Require Import Reals List.
-From XV Require Import RealLib Mat3 OmegaSolve Cell Gen_laue P09_laue P09_plain P09_quart.
+From XV Require Import RealLib Mat3 OmegaSolve Cell Gen_laue P09_laue P09_plain P09_quart P09_wedge.
 Import ListNotations.
 Open Scope R_scope.
 
@@ -48,3 +48,26 @@ Theorem C09_laue_tth_eq_tth2 : forall U c h wl, is_rot U -> valid_cell c -> 0 < 
   laue_tth2 (mvmul (mmul U (laue_form_b_mat c)) h) wl = laue_tth c h wl.
 Proof. exact laue_tth_eq_tth2. Qed.
 Print Assumptions C09_laue_tth_eq_tth2.
+
+(* find_omega_wedge: wedge_mat wedge w = Ry(-wedge).Rz(w); wedge_coseta / wedge_a are the code's own coseta and a (a = 0 makes the code divide by zero) *)
+Theorem C09_laue_wedge : forall g tth wedge oms etas,
+  0 < tth < PI -> vx g * vx g + vy g * vy g <> 0 -> cos wedge <> 0 ->
+  laue_find_omega_wedge g tth wedge = (oms, etas) ->
+  let gn := normalise_to tth g in let ce := wedge_coseta g tth wedge in
+  (1 < Rabs ce -> oms = [] /\ etas = []) /\
+  (Rabs ce <= 1 -> wedge_a g tth wedge <> 0 ->
+     exists w1 w2, oms = [w1; w2] /\ etas = [acos ce; - acos ce] /\
+       diffracts (wedge_mat wedge w1) gn tth (acos ce) /\ diffracts (wedge_mat wedge w2) gn tth (- acos ce) /\
+       - PI < w1 <= PI /\ - PI < w2 <= PI).
+Proof. exact laue_find_omega_wedge_sound. Qed.
+Print Assumptions C09_laue_wedge.
+Theorem C09_laue_wedge_complete : forall g tth wedge w,
+  0 < tth < PI -> vx g * vx g + vy g * vy g <> 0 -> cos wedge <> 0 -> wedge_a g tth wedge <> 0 ->
+  let gn := normalise_to tth g in
+  - PI < w <= PI -> vx (mvmul (wedge_mat wedge w) gn) = - (sin (tth / 2) * sin (tth / 2)) ->
+  Rabs (wedge_coseta g tth wedge) <= 1 /\ In w (fst (laue_find_omega_wedge g tth wedge)).
+Proof. exact laue_find_omega_wedge_complete. Qed.
+Print Assumptions C09_laue_wedge_complete.
+Theorem C09_wedge_matrix_is_rotation : forall wedge w, is_rot (wedge_mat wedge w).
+Proof. exact wedge_mat_rot. Qed.
+Print Assumptions C09_wedge_matrix_is_rotation.
